@@ -162,6 +162,7 @@ def run_one(ck, prog):
             ck.ob("C11.3", "find_buf-passes-bytes-unchanged", ok, fn=fb["path"], site=ctx.site(bb), detail=f"find_buf must search for exactly the caller's bytes, passes {show(a)}")
 
     check_scan_step(ck, prog)
+    check_parent_path_is_local(ck, prog)
 
     # ---- C11.4 split points --------------------------------------------------------------------------------------------
     pf = prog.fns.get(M + "UnixStr::path_file_name")
@@ -239,6 +240,21 @@ def run_one(ck, prog):
         ck.ob("C11.4", "file-name-only-when-something-follows", guarded, fn=pf["path"], detail="Some(name) must be dominated by index + 2 < len (a separator in last position has no file name after it)")
         revs = [bb for bb, t in ctx.cfg.calls(lambda t: (t.get("callee") or "").endswith(("Iterator::rev", "Iterator::rposition")))]
         ck.ob("C11.4", "file-name-scans-from-the-back", len(revs) == 1, fn=pf["path"], detail="the separator must be searched from the end (last separator)")
+
+
+def check_parent_path_is_local(ck, prog):
+    """C11.4: parent_path decides from the end of the path - the last separator and the byte before it. A search over the whole string
+    (find / buf_find / windows / contains / position) in it makes the answer depend on bytes far from the split point: a `//` early in
+    the path has nothing to do with where the parent ends."""
+    pp = prog.fns.get(M + "UnixStr::parent_path")
+    if pp is None:
+        if ck.config != "C":
+            ck.anchor("C11.4", "parent_path", None)
+        return
+    c = prog.ctx(pp)
+    SEARCH = ("::buf_find", "UnixStr::find", "UnixStr::find_buf", "<impl [T]>::windows", "<impl [T]>::contains", "Iterator::position", "<impl [T]>::starts_with", "memchr")
+    far = sorted({(t.get("resolved") or t.get("callee") or "").split("::")[-1] for _, t in c.cfg.calls(lambda t: (t.get("resolved") or t.get("callee") or "").endswith(SEARCH) or (t.get("callee") or "").endswith(SEARCH))})
+    ck.ob("C11.4", "parent-path-decides-at-the-last-separator", not far, fn=pp["path"], detail=f"parent_path searches the whole string ({far}); whether there is a parent depends only on the last separator and the byte before it")
 
 
 def check_scan_step(ck, prog):
